@@ -113,6 +113,17 @@ CLAIMED = {
              'iff none; add_many: exactly the new URLs) and the full get_all() state equals the model, also across close+reopen.',
         note='Trusted: refs/table.py, SQLAlchemy/SQLite. Kill-and-reopen belongs to C03, not here. A properties object always names '
              'parent and root URL (as all wpull callers do).'),
+    'C17': dict(
+        level='exploration', engine='ftp', design_ref='4/C17',
+        technique='deterministic simulation: real FTP client against a simulated FTP server (control + passive data connections) '
+                  'with tape-drawn URLs/logins containing any percent-encoded byte, reply shapes, error replies, relative timing of '
+                  'data EOF and completion reply, data resets, and segmentation of both streams',
+        text='Seeded search over URLs and login values (every byte value incl. CR/LF/NUL percent-encoded), single and multi-line '
+             'reply shapes, error replies at every step, 226-before-EOF / EOF-before-226 / simultaneous, data connection reset, '
+             'missing or negative completion. Oracle: control bytes split at CRLF give exactly one line per issued command with no '
+             'CR/LF inside and no unexpected verb; Reply objects equal the reference assembler per connection and across '
+             'segmentations; success only after data EOF and a 226.',
+        note='Trusted: refs/ftp.py. read_reply is observed through a logging subclass; active mode, TLS and REST are not exercised.'),
 }
 
 PENDING_REASON = 'check not built yet in this round (designed in DESIGN.md section 4); no claim is made'
